@@ -19,6 +19,7 @@ THERMAL_CX = os.path.join(REPO, 'cherab/core/model/plasma/thermal_cx.pyx')
 TRP = os.path.join(REPO, 'cherab/core/model/plasma/total_radiated_power.pyx')
 GAUNT = os.path.join(REPO, 'cherab/core/atomic/gaunt.pyx')
 ELEMENTS = os.path.join(REPO, 'cherab/core/atomic/elements.pyx')
+BREMS = os.path.join(REPO, 'cherab/core/model/plasma/bremsstrahlung.pyx')
 
 # identifiers of Element objects shared by the harness, the generated table and the Lean driver
 ELEMENT_IDS = ['hydrogen', 'protium', 'deuterium', 'tritium', 'helium', 'helium3', 'lithium', 'beryllium', 'boron',
@@ -126,8 +127,43 @@ def parse_trp_hydrogen(path=TRP):
     raise ValueError('hydrogen isotope tuple of TotalRadiatedPower._populate_cache not found')
 
 
+def parse_brems_guard(path=BREMS):
+    """the condition of the `if …: self._populate_cache()` at the top of Bremsstrahlung.emission:
+    (tests `species_charge is None`, also tests `gaunt_factor is None`)"""
+    lines = open(path).read().split('\n')
+    inside = False
+    for i, l in enumerate(lines):
+        if re.match(r'\s*cpdef\s+Spectrum\s+emission\s*\(', l):
+            inside = True
+            continue
+        if inside and re.match(r'\s*(cdef|cpdef|def)\s+\w.*\(.*', l) and '_populate_cache' in l:
+            break
+        if inside and re.match(r'\s*self\._populate_cache\(\)', l):
+            j = i - 1
+            while j >= 0 and not lines[j].strip():
+                j -= 1
+            m = re.match(r'\s*if\s+(.*):\s*$', lines[j])
+            if not m:
+                raise ValueError('Bremsstrahlung.emission: `if` before self._populate_cache() not found')
+            cond = m.group(1)
+            terms = [t.strip() for t in re.split(r'\bor\b', cond)]
+            charge = any(re.fullmatch(r'self\._brems_func\.species_charge\s+is\s+None', t) for t in terms)
+            gaunt = any(re.fullmatch(r'self\._brems_func\.gaunt_factor\s+is\s+None', t) for t in terms)
+            if not charge or len(terms) != 1 + int(gaunt):
+                raise ValueError('Bremsstrahlung.emission: unrecognised populate condition %r' % cond)
+            return charge, gaunt
+    raise ValueError('populate guard of Bremsstrahlung.emission not found')
+
+
 def generate():
-    """writes Gen/Constants.lean and Gen/PassiveFlags.lean; returns a dict describing what was read"""
+    """writes Gen/Constants.lean, Gen/PassiveFlags.lean and Gen/BremsFlags.lean; returns a dict describing what was read"""
+    _, gg = parse_brems_guard()
+    bf = ['/- GENERATED by harness/translators/constants.py from cherab/core/model/plasma/bremsstrahlung.pyx — do not edit -/',
+          'namespace Cherab.Gen.BremsFlags', '',
+          '/-- the `if` in front of `self._populate_cache()` in `Bremsstrahlung.emission` tests `gaunt_factor is None` too -/',
+          'def emissionGuardTestsGaunt : Bool := %s' % ('true' if gg else 'false'),
+          '', 'end Cherab.Gen.BremsFlags', '']
+    lean.write_if_changed(os.path.join(LEAN, 'Cherab', 'Gen', 'BremsFlags.lean'), '\n'.join(bf))
     lits, exprs = parse_constants()
     lits = lits + [('EULER_GAMMA', parse_euler())]
     out = ['/- GENERATED by harness/translators/constants.py from cherab/core/utility/constants.pyx\n   (and `DEF EULER_GAMMA` of cherab/core/atomic/gaunt.pyx) — do not edit -/',
@@ -169,7 +205,8 @@ def generate():
           'def registryZ : List Nat := [%s]' % ', '.join(str(z_) for _, z_ in reg),
           '', 'end Cherab.Gen.PassiveFlags', '']
     lean.write_if_changed(os.path.join(LEAN, 'Cherab', 'Gen', 'PassiveFlags.lean'), '\n'.join(fl))
-    return dict(literals=dict(lits), derived=dict(exprs), cx_density_guard=dens, cx_temperature_guard=temp, trp_hydrogen=hyd)
+    return dict(literals=dict(lits), derived=dict(exprs), cx_density_guard=dens, cx_temperature_guard=temp, trp_hydrogen=hyd,
+                brems_guard_tests_gaunt=gg)
 
 
 if __name__ == '__main__':
